@@ -228,6 +228,11 @@ typedef struct {
 	/// If decoding a literal: match byte.
 	/// If decoding a match: length of the match.
 	uint32_t len;
+
+	/// True if uncompressed_size is known, all of it has been decoded,
+	/// and the symbol being decoded is thus allowed to be EOPM.
+	/// This is needed when the input ends in the middle of that symbol.
+	bool eopm_is_valid;
 } lzma_lzma1_decoder;
 
 
@@ -295,7 +300,8 @@ lzma_decode(void *coder_ptr, lzma_dict *restrict dictptr,
 	// EOPM is always required (not just allowed) when
 	// the uncompressed size isn't known. When uncompressed size
 	// is known, eopm_is_valid may be set to true later.
-	bool eopm_is_valid = coder->uncompressed_size == LZMA_VLI_UNKNOWN;
+	bool eopm_is_valid = coder->uncompressed_size == LZMA_VLI_UNKNOWN
+			|| coder->eopm_is_valid;
 
 	// If uncompressed size is known and there is enough output space
 	// to decode all the data, limit the available buffer space so that
@@ -994,6 +1000,7 @@ out:
 	coder->limit = limit;
 	coder->offset = offset;
 	coder->len = len;
+	coder->eopm_is_valid = eopm_is_valid;
 
 	// Update the remaining amount of uncompressed data if uncompressed
 	// size was known.
@@ -1028,6 +1035,7 @@ lzma_decoder_uncompressed(void *coder_ptr, lzma_vli uncompressed_size,
 	lzma_lzma1_decoder *coder = coder_ptr;
 	coder->uncompressed_size = uncompressed_size;
 	coder->allow_eopm = allow_eopm;
+	coder->eopm_is_valid = false;
 }
 
 
